@@ -194,7 +194,7 @@ theorem execAction_debit_authorised (s s' : State) (signer : String) (pos : Nat)
     `none` for the actions that change no privileged state. -/
 def requiredAuthority (s : State) : Action → Option (Option String)
   | .sudoChange _ | .ibcSudoChange _ | .feeChange _ _ _ | .feeAssetAdd _ | .feeAssetDel _
-  | .valUpdate _ _ => some (some s.sudo)
+  | .valUpdate _ _ | .pairsAdd _ | .pairsDel _ | .marketsChange _ _ => some (some s.sudo)
   | .relayerAdd _ | .relayerDel _ => some (some s.ibcSudo)
   | .bridgeSudo bridge _ _ _ _ => some ((lookup s.bridges bridge).map (·.sudo))
   | _ => none
@@ -212,6 +212,9 @@ theorem mutableOk_authority (s : State) (signer : String) (act : Action) (auth :
   case feeAssetAdd a => rw [hm.1]
   case feeAssetDel a => rw [hm.1.1]
   case valUpdate k p => rw [hm.1]
+  case pairsAdd names => rw [hm.1]
+  case pairsDel names => rw [hm.1]
+  case marketsChange kind ms => rw [hm.1]
   case relayerAdd x => rw [hm.1]
   case relayerDel x => rw [hm.1]
   case bridgeSudo bridge ns nw fa dis =>
